@@ -164,10 +164,12 @@ def obligations(tier):
     hstubs = [S_STREAM, S_HDR, S_XML, S_SVC, S_SOCK, S_CODEC]
     obs.append(Ob('C13.post.framing', 'harness.C13', 'handler_post', bind=dict(fixed, tclass=0, target=0, has_disp=True), timeout=t,
                   functions=HANDLER, stubs=hstubs,
-                  bounds='6 request framings: content-length, chunked, malformed chunk header (DechunkError), unsupported '
-                         'content-encoding (DecompressError), no body, corrupt gzip',
+                  bounds='8 request framings: content-length, chunked, malformed chunk header (DechunkError), unsupported '
+                         'content-encoding (DecompressError), no body, corrupt gzip, non-numeric and negative Content-Length in front of '
+                         'a body that is itself a complete request',
                   claim='do_POST answers every framing with a status line; a body the reader rejects does not become an exception '
-                        'leaving do_POST; the component is not reached'))
+                        'leaving do_POST; the component is not reached; bytes of the request that were not read are never left on a '
+                        'connection that stays open (they would be served as the next request)'))
     for c, cname in enumerate(TCLASS):
         obs.append(Ob(f'C13.post.target.{cname}', 'harness.C13', 'handler_post', bind=dict(fixed, rs=0, tclass=c, has_disp=True),
                       timeout=t, twin=(c < 2), functions=HANDLER, stubs=hstubs, bounds=f'pool of request targets of class "{cname}"',
